@@ -56,7 +56,23 @@ def plan(tier, seed):
     # custom bases whose generator labels are hexadecimal letters (what Algebra(d, start_index=10) itself reports as its basis)
     A.append({'signature': [1, -1], 'basis': ['e', 'eb', 'ea', 'eab']})
     A.append({'signature': [1, 1, 0], 'basis': ['e', 'ea', 'eb', 'ec', 'eab', 'eca', 'ebc', 'eabc']})
+    # start indices (and bases) that make the hexadecimal digit 'e' itself a generator label: 'eec' is then a spelling of 'ece'
+    A.append({'p': 2, 'q': 1, 'r': 0, 'start_index': 12})
+    A.append({'signature': [1, -1, 0], 'start_index': 13})
+    A.append({'signature': [-1, 1], 'start_index': 14})
+    A.append({'signature': [1, 1, -1], 'basis': ['e', 'ee', 'ed', 'ec', 'eed', 'ece', 'edc', 'eced']})
+    if tier != 'quick':
+        for s in (10, 11, 12, 13, 14):
+            for _ in range(4):
+                A.append({'signature': gen.random_sig(rng, rng.choice((2, 3))), 'start_index': s})
     U = [{'kind': 'relabel', 'cfg': c, 'per_op': 3 if tier == 'quick' else 3} for c in A]
+    # custom bases above six dimensions (lazily filled sign table): elementary operators only, few blades
+    cheap = ops.ELEMENTARY_BIN + ops.ELEMENTARY_UN + ['sw', 'normsq']
+    big = [{'signature': [1] * 7}, {'signature': [0, 1, 1, 1, 1, -1, -1]}, {'signature': gen.random_sig(rng, 7)}]
+    if tier != 'quick':
+        big += [{'signature': gen.random_sig(rng, 7)} for _ in range(12)] + [{'signature': [0] + [1] * 6 + [-1]}]
+    for c in big:
+        U.append({'kind': 'relabel', 'cfg': dict(c, basis=gen.random_basis(rng, len(c['signature']), rng.choice((0, 1)))), 'per_op': 2, 'ops': cheap})
     # rejection: ordered pairs among ~30 algebras d <= 3
     R = [{'p': 2, 'q': 0, 'r': 0}, {'p': 1, 'q': 1, 'r': 0}, {'signature': [-1, 1]}, {'signature': [1, -1]}, {'p': 0, 'q': 2, 'r': 0},
          {'p': 1, 'q': 0, 'r': 1}, {'signature': [1, 0]}, {'signature': [0, 1]}, {'p': 3, 'q': 0, 'r': 0}, {'p': 2, 'q': 1, 'r': 0},
@@ -115,7 +131,9 @@ def relabel_unit(ctx, unit):
     to = CASE_TIMEOUT[ctx.tier]
     canonA = tuple(A.canon2bin.values())
     d = A.d
-    for op in ALLOPS:
+    if d >= 7:
+        ctx.count('custom_basis_algebras_d_ge_7')
+    for op in unit.get('ops', ALLOPS):
         for _ in range(unit['per_op']):
             if ctx.out_of_time():
                 return
